@@ -211,9 +211,14 @@ ValLoop(batch, i, bk, st) ==
     IF i > Len(batch) THEN [blk |-> bk, sta |-> st, err |-> "ok"]
     ELSE LET b == batch[i] IN
       IF ~T.v2[b] THEN [blk |-> bk, sta |-> st, err |-> "notv2"]
-      ELSE ValLoop(batch, i + 1, [bk EXCEPT ![b] = "supp"], [st EXCEPT ![b] = "full"])
+      \* the caller's state is stored as is: the harness supplies the linear ledger's state for a
+      \* block of a valid chain and the header-derived one for a (header-valid) descendant of an
+      \* invalid block -- a caller that "validated" on top of a block the manager never validated
+      ELSE ValLoop(batch, i + 1, [bk EXCEPT ![b] = "supp"], [st EXCEPT ![b] = IF T.valid[b] THEN "full" ELSE "partial"])
 
-ValBatches == {q \in Batches : \A i \in 1..Len(q) : T.valid[q[i]] /\ H(q[i]) > ReqH /\ (i > 1 => Par(q[i]) = q[i - 1])}
+ValBatches == {q \in Batches : \A i \in 1..Len(q) : /\ Cls(q[i]) = "ok" /\ H(q[i]) > ReqH
+                                                      /\ (T.valid[q[i]] \/ ~T.valid[Par(q[i])])
+                                                      /\ (i > 1 => Par(q[i]) = q[i - 1])}
 
 SubmitValidated(batch) ==
     /\ pc.k = "idle"
